@@ -194,6 +194,30 @@ def negative_sierra_templates(out_dir):
     }
     for k, v in fs.items():
         progs[k] = fs_hdr + v + tail
+    # declared type infos (`type T = G<..> [storable: .., drop: .., dup: .., zero_sized: ..]`) that lie about a flag:
+    # the registry must compare every declared info with the one it computes (TypeInfoDeclarationMismatch)
+    def ti(decl_name, long_id, st, dr, du, zs, extra_types, libs, body, sig):
+        return ("type felt252 = felt252;\n" + extra_types
+                + "type %s = %s [storable: %s, drop: %s, dup: %s, zero_sized: %s];\n" % (decl_name, long_id, st, dr, du, zs)
+                + libs + body + "\n\n" + sig + "\n")
+    T, F = "true", "false"
+    tis = {
+        "ti_array_dup": ti("Arr", "Array<felt252>", T, T, T, F, "", "libfunc dup_a = dup<Arr>;\nlibfunc drop_a = drop<Arr>;\n",
+                           "dup_a([0]) -> ([0], [1]);\ndrop_a([0]) -> ();\ndrop_a([1]) -> ();\nreturn();", "verif::f@0([0]: Arr) -> ();"),
+        "ti_array_dup_inherited": ti("Arr", "Array<felt252>", T, T, T, F, "", "type W = Struct<ut@verif::W, Arr>;\nlibfunc dup_w = dup<W>;\nlibfunc drop_w = drop<W>;\n",
+                           "dup_w([0]) -> ([0], [1]);\ndrop_w([0]) -> ();\ndrop_w([1]) -> ();\nreturn();", "verif::f@0([0]: W) -> ();"),
+        "ti_rangecheck_drop": ti("RC", "RangeCheck", T, T, F, F, "", "libfunc drop_rc = drop<RC>;\n", "drop_rc([0]) -> ();\nreturn();", "verif::f@0([0]: RC) -> ();"),
+        "ti_gas_dup": ti("GB", "GasBuiltin", T, F, T, F, "", "libfunc dup_g = dup<GB>;\n", "dup_g([0]) -> ([0], [1]);\nreturn([0], [1]);", "verif::f@0([0]: GB) -> (GB, GB);"),
+        "ti_dict_drop": ti("D", "Felt252Dict<felt252>", T, T, F, F, "", "libfunc drop_d = drop<D>;\n", "drop_d([0]) -> ();\nreturn();", "verif::f@0([0]: D) -> ();"),
+        "ti_uninit_storable": ti("U", "Uninitialized<felt252>", T, T, F, F, "", "libfunc drop_u = drop<U>;\n", "drop_u([0]) -> ();\nreturn();", "verif::f@0([0]: U) -> ();"),
+        "ti_nonzero_zero_sized": ti("NZ", "NonZero<felt252>", T, T, T, T, "", "libfunc drop_nz = drop<NZ>;\n", "drop_nz([0]) -> ();\nreturn();", "verif::f@0([0]: NZ) -> ();"),
+        "ti_unit_not_zero_sized": ti("U0", "Struct<ut@Tuple>", T, T, T, F, "", "libfunc drop_u0 = drop<U0>;\n", "drop_u0([0]) -> ();\nreturn();", "verif::f@0([0]: U0) -> ();"),
+        "ti_user_struct_dup": ti("W", "Struct<ut@verif::W, Arr>", T, T, T, F, "type Arr = Array<felt252>;\n", "libfunc dup_w = dup<W>;\nlibfunc drop_w = drop<W>;\n",
+                           "dup_w([0]) -> ([0], [1]);\ndrop_w([0]) -> ();\ndrop_w([1]) -> ();\nreturn();", "verif::f@0([0]: W) -> ();"),
+        "ti_box_not_dup": ti("B", "Box<felt252>", T, T, F, F, "", "libfunc drop_b = drop<B>;\n", "drop_b([0]) -> ();\nreturn();", "verif::f@0([0]: B) -> ();"),
+        "ti_snapshot_of_array_not_dup": ti("S", "Snapshot<Arr>", T, T, F, F, "type Arr = Array<felt252>;\n", "libfunc drop_s = drop<S>;\n", "drop_s([0]) -> ();\nreturn();", "verif::f@0([0]: S) -> ();"),
+    }
+    progs.update(tis)
     for f in glob.glob(os.path.join(out_dir, "n_*.sierra")):
         os.unlink(f)
     for k, v in progs.items():
